@@ -784,6 +784,10 @@ class MiniInterp:
                     for x in a2[0]:
                         acc = acc.add(Lin.of(x))
                     return acc.simplify()
+                if name == "bool":
+                    return self.truth(a2[0]) if a2 else False
+                if name == "str" and a2 and isinstance(a2[0], (Sym, Lin)):
+                    return Sym("fstring", parts=[a2[0]])
                 if any(isinstance(x, (Sym, Lin)) for a in a2 for x in (a if isinstance(a, (list, tuple)) else [a])):
                     raise Unknown(f"builtin {name} on symbolic terms")
                 return {"min": min, "max": max, "sum": sum, "abs": abs, "int": int, "bool": bool, "str": str, "float": float,
